@@ -113,6 +113,12 @@ def gen_ontology_spec(rng):
         et['relations'] = [G.base_relation('p', 'q')]
     if rng.random() < 0.4:
         et['props'][0]['assocs'] = [G.base_assoc('c.a')]
+        if rng.random() < 0.4:
+            # an attribute extension together with the smallest legal confidence / naming priority
+            a = et['props'][0]['assocs'][0]
+            a['ext'] = 'ext'
+            a['free']['attr-display-name-singular'], a['free']['attr-display-name-plural'] = 'x', 'xs'
+            a['free'][rng.choice(['confidence', 'cnp'])] = 0
     for _ in range(rng.randint(0, 8)):
         G.mutate(rng, 'eventtype', et)
     G.fix_relations(et)
@@ -401,9 +407,10 @@ class C08(Property):
         from edxml.error import EDXMLValidationError
         if case['kind'] == 'reuse':
             return self.observe_reuse(case)
+        own = self.own_output(case)
         root, applied = self.prepared_input(case)
         if root is None:
-            return {'skipped': True}
+            return {'skipped': True, 'own': own}
         try:
             o2 = Ontology.create_from_xml(copy.deepcopy(root))
         except EDXMLValidationError as ex:
@@ -418,9 +425,25 @@ class C08(Property):
         except Exception as ex:
             b3 = b'err:' + type(ex).__name__.encode()
         els = {json.dumps(k): a for k, _t, a in elements_of(x2)}
-        return {'skipped': False, 'parsed': 'ok', 'elements': els, 'second_identical': b2 == b3, 'tree': sort_attrs(tree_of(x2)),
+        return {'skipped': False, 'own': own, 'parsed': 'ok', 'elements': els, 'second_identical': b2 == b3, 'tree': sort_attrs(tree_of(x2)),
                 'schema_valid': bool(schema().validate(wrap(x2))),
                 'same_definitions': self.same_definitions(root, x2)}
+
+    def own_output(self, case):
+        """What the SDK serializes for a valid ontology it built itself is read back as the same definitions."""
+        from edxml.ontology import Ontology
+        try:
+            o = build(case['items'])
+            o.validate()
+        except Exception:
+            return True      # not a case
+        try:
+            x = o.generate_xml()
+            back = Ontology.create_from_xml(wrap(x)[0])
+        except Exception as ex:
+            return 'what generate_xml() wrote for a valid ontology cannot be read back (%s)' % type(ex).__name__
+        r = self.same_definitions(wrap(x)[0], back.generate_xml())
+        return True if r is True else 'what generate_xml() wrote for a valid ontology reads back with another definition of %s' % r
 
     @staticmethod
     def same_definitions(root, x2):
@@ -464,7 +487,7 @@ class C08(Property):
             return {'skipped': False, 'outcome': 'ok', 'serializes_as_fresh': True, 'parses_back_as_fresh': True, 'updates_as_fresh': True}
         root, applied = self.prepared_input(case)
         if root is None:
-            return {'skipped': True}
+            return {'skipped': True, 'own': True}
         els = {}
         ok = True
         for (k, _t, _a), r in zip(elements_of(root), replies[0]['elements']):
@@ -475,8 +498,8 @@ class C08(Property):
             if r['twice'] == 'fail' or sorted(r['twice']) != sorted(r['once']):
                 ok = False
         if not ok or replies[1]['once'] == 'fail' or not replies[1]['twiceSame']:
-            return {'skipped': False, 'parsed': 'model-fails'}
-        return {'skipped': False, 'parsed': 'ok', 'elements': els, 'second_identical': True, 'schema_valid': True,
+            return {'skipped': False, 'own': True, 'parsed': 'model-fails'}
+        return {'skipped': False, 'own': True, 'parsed': 'ok', 'elements': els, 'second_identical': True, 'schema_valid': True,
                 'tree': sort_attrs(replies[1]['once']), 'same_definitions': True}
 
     def fill_undecided(self, case, obs, pred):
@@ -487,6 +510,8 @@ class C08(Property):
         return pred
 
     def oracle(self, case, obs):
+        if case['kind'] == 'cycle' and obs.get('own', True) is not True:
+            return obs['own']
         if obs.get('skipped'):
             return None
         if case['kind'] == 'reuse':
